@@ -221,6 +221,9 @@ def run(fx, rep):
                 rep.ok('R5', key, F.loc_of(t['span']), allowed.get(fn) or allowed.get(short))
             elif any(vb.dominates(r, bi) for r in reports):
                 rep.ok('R5', key, F.loc_of(t['span']), 'dominated by a report_error call')
+            elif not t['dest']['p'] and any(F.norm_callee(t2) == 'std::mem::replace' and len(t2['args']) == 2 and F.op_local(t2['args'][1]) == t['dest']['l'] for _, t2 in vb.calls()):
+                # `mem::replace(slot, Default::default())` is `mem::take(slot)` spelled out: the placeholder goes INTO the slot, the node comes out
+                rep.ok('R5', key, F.loc_of(t['span']), 'moved into a slot by mem::replace (the take idiom): the value returned is the former content of the slot')
             elif fn == PARSE:
                 # the placeholder standing for an unwalked erroneous tree: only on the edge where the listener vector is NOT empty
                 vpv = vpv or F.Prov(vb)
